@@ -8,15 +8,16 @@ from props import _c20_translate as tr
 
 LEVEL_TEXT = ("Coq theorems over the real numbers (stdlib Reals) about the Gallina model of window.py, for every length N: "
               "length, symmetry w[n]=w[N-1-n], max<=1 and centre=1 (odd N) of the closed-form generators, ENBW>=1 for every real "
-              "vector with non-zero sum (Cauchy-Schwarz, axiom-free in the abstract ordered field), flat-top centre > 1 refuted with "
-              "the bound 1+4e-9.  The factory tables (window_names, windows_with_parameters, def signatures, cosine-sum "
+              "vector with non-zero sum (Cauchy-Schwarz, axiom-free in the abstract ordered field), flat-top centre = 1.000000003 > 1 "
+              "(refutation, known finding D16) with the exact bound <= 1+4e-9; whatever the factory returns is one of the 24 generators.  The factory tables (window_names, windows_with_parameters, def signatures, cosine-sum "
               "coefficients) are re-translated from the snapshot by a fail-closed ast translator on every run and the alias / "
               "parameter-routing / rejection theorems are re-proved over the generated tables (finite domain: 29 names).  "
               "Tie: the same Gallina terms are executed at binary64 inside Coq (cos/sin/exp/log/I0 by argument reduction + series, "
               "validated against numpy in the same run) through the model of create_window over the GENERATED tables and compared "
               "sample by sample with the implementation; plus a property-directed search on the implementation.")
-TRUSTED = ["Coq 8.16.1 kernel + vm_compute (no native_compute); stdlib Reals axioms and, for the few coefficient bounds closed by "
-           "the interval tactic, the axioms Print Assumptions lists (see theorems)",
+TRUSTED = ["Coq 8.16.1 kernel + vm_compute (no native_compute); theorems over R depend on the stdlib axioms Print Assumptions lists "
+           "(sig_forall_dec, sig_not_dec, functional_extensionality_dep, classic); the interval tactic is NOT used (the cosine-sum "
+           "bounds follow from one polynomial identity), the ENBW / factory / coefficient theorems are axiom-free",
            "hand-written model coq/Model/Window.v (tie = binary64 correspondence, tolerance 2^-36 relative to max(1,|w|))",
            "tools/props/_c20_translate.py (ast translator; the control flow of create_window, Window.__init__, the getters and "
            "enbw must equal fixed skeletons, otherwise the translation fails closed)",
